@@ -1588,3 +1588,17 @@ Theorem raw_recoverable_iff e :
   (classify (handle_error e) = Continue <->
    has_use_of_closed e = false /\ has_broken_pipe e = false /\ has_canceled e = true).
 Proof. exact (conj (handle_error_never_other e) (raw_continue_iff e)). Qed.
+
+(* ---- the configuration that goes with the first message ------------------------------------------- *)
+
+(* repaired SendTo: the first send that succeeds carries the configuration *)
+Theorem config_reaches_fixed : forall earlier,
+  Forall (fun r => r = RErr) earlier -> carries_config true earlier = true.
+Proof.
+  intros earlier H. destruct earlier as [|r l]; auto. cbn [carries_config andb].
+  apply forallb_forall. intros x Hx. rewrite Forall_forall in H. now rewrite (H x Hx).
+Qed.
+
+(* pinned SendTo: one failed send is enough to lose it *)
+Theorem config_lost_refuted : carries_config false [RErr] = false.
+Proof. reflexivity. Qed.
